@@ -1981,6 +1981,49 @@ def _value_origin(f, arg) -> str:
     return 'unknown'
 
 
+# ---------------------------------------------------------------------------
+# R10 every accepted add_route invalidates (or rebuilds) the compiled finder
+# ---------------------------------------------------------------------------
+
+def r10_finder_invalidated(run):
+    """The compiled finder is a snapshot of the tree.  add_route changes what
+    lookups must return even when no node is created (a template ending on an
+    existing intermediate node gives that node a resource), so every normal
+    return of add_route must have re-assigned the finder slot -- to a fresh
+    compile or to the lazy stub.  W: add('/a/{x}/e'); find(...) (compiles);
+    add('/a/{x}') without compile=True; find('/a/a') -> None."""
+    p = run.project
+    f = p.func('falcon.routing.compiled.CompiledRouter.add_route')
+    cfg = cfg_of(f, p)
+    run.use_cfg(cfg)
+    init = p.func('falcon.routing.compiled.CompiledRouter.__init__')
+    find = p.func('falcon.routing.compiled.CompiledRouter.find')
+    # the finder slot = the non-method self attribute that find() calls
+    slots = {c.func.attr for c in walk_self(find.node) if isinstance(c, ast.Call) and isinstance(c.func, ast.Attribute)
+             and isinstance(c.func.value, ast.Name) and c.func.value.id == 'self' and p.lookup_method(f.cls.qual, c.func.attr) is None}
+    if len(slots) != 1:
+        raise AnchorError('finder slot of CompiledRouter.find not identified: %s' % sorted(slots))
+    slot = slots.pop()
+    stores = [n.id for n in cfg.live_nodes() if n.kind == 'stmt' and isinstance(n.ast, ast.Assign)
+              and any(isinstance(t, ast.Attribute) and t.attr == slot and isinstance(t.value, ast.Name) and t.value.id == 'self' for t in n.ast.targets)]
+    if not stores:
+        raise AnchorError('add_route never assigns self.%s' % slot)
+    path = flow.find_path(cfg, [cfg.entry], [cfg.exit], avoid_nodes=stores, edge_filter=flow.no_exc)
+    run.check(path is None, 'every normal return of add_route re-assigns the finder slot self.%s (fresh compile or lazy stub)' % slot,
+              f, 'self.%s not reassigned on a normal path' % slot, where=f.loc(),
+              witness=flow.describe_path(cfg, path) if path else None,
+              runtime_witness="add('/a/{x}/e'); a lookup; add('/a/{x}') -> find('/a/a') still answers from the stale finder")
+    # each store is either a compile result or the lazy stub (a method of the router)
+    for nid in stores:
+        v = cfg.node(nid).ast.value
+        okv = False
+        if isinstance(v, ast.Call) and isinstance(v.func, ast.Attribute) and isinstance(v.func.value, ast.Name) and v.func.value.id == 'self':
+            okv = p.lookup_method(f.cls.qual, v.func.attr) is not None
+        elif isinstance(v, ast.Attribute) and isinstance(v.value, ast.Name) and v.value.id == 'self':
+            okv = p.lookup_method(f.cls.qual, v.attr) is not None
+        run.check(okv, 'the finder slot is set to a fresh compile or to the lazy-compile stub', f, cfg.node(nid).ast)
+
+
 def check(run):
     run.assume('a rejection is an exception in the E5 summary of add_route (explicit raises, closed over resolved callees); '
                'other exceptions (IndexError, MemoryError, ...) are internal errors, not rejections')
@@ -1997,4 +2040,5 @@ def check(run):
     run.rule('R6', r6_generated_names, 'generated names are assigned before the constructs that read them', floor=10)
     run.rule('R7', r7_conflict_table, 'conflicts_with on the 3x3 node kinds', floor=6)
     run.rule('R8', r8_pruning, 'fast_return pruning is only ever conservative', floor=5)
+    run.rule('R10', r10_finder_invalidated, 'every accepted add_route invalidates or rebuilds the compiled finder', floor=3)
     run.rule('R9', r9_quoted_placeholders, 'only validated field names are rendered between quotes of the generated source', floor=5)
